@@ -1,5 +1,5 @@
 CONSTANTS
-  Dts = {"i8", "i16", "i32", "i64", "u8", "u16", "u32", "u64", "f32", "f64", "str8", "opq4", "cmp"}
+  Dts = {"i8", "i16", "i32", "i64", "u8", "u16", "u32", "u64", "f32", "f64", "str8", "opq4", "cmp", "arr3", "enumn"}
   Extents1 = {1, 2, 3, 4, 5, 6, 7, 8, 9}
   Extents2 = {1, 2, 3, 4, 5, 7}
   Extents3 = {1, 2, 3}
